@@ -73,6 +73,12 @@ func (t *runTarget) Evaluate(engine runner.Engine) error {
 	// Copy the current version of the data.
 	t.data = info.Data
 
+	// Whether the target changed is a fact about this run. The runTarget outlives the run when
+	// one loaded project is built several times (the REPL's run()), and a flag left over from an
+	// earlier run - a dry run sets it for every target it reports - would make up-to-date
+	// dependents execute.
+	t.changed = false
+
 	// Evaluate the target's dependencies.
 	depsUpToDate := true
 	deps := t.target.dependencies()
